@@ -110,6 +110,87 @@ theorem C13_nhop_reach (n : Nat) (A : BMat) (hops : Nat) (hh : 1 ≤ hops) (i j 
 
 example : (nHopM 3 (fun i j => (i, j) ∈ [(0, 1), (1, 0), (1, 2), (2, 1)]) 2).get 0 2 = true := by decide
 
+/-- **C13_nhop_mono**: reachability within `h` steps implies reachability within any larger number of steps — a
+query for a SMALLER hop count may never be answered from a larger one computed earlier on the same object
+(the converse direction is the content of this implication being strict in general, see the example below). -/
+theorem C13_nhop_mono (n : Nat) (A : BMat) (h h' : Nat) (h1 : 1 ≤ h) (hh : h ≤ h') (i j : Nat) (hi : i < n) (hj : j < n)
+    (hr : (nHopM n A h).get i j = true) : (nHopM n A h').get i j = true := by
+  rw [C13_nhop_reach n A h h1 i j hi hj] at hr
+  rw [C13_nhop_reach n A h' (by omega) i j hi hj]
+  obtain ⟨k, k1, k2, w⟩ := hr
+  exact ⟨k, k1, by omega, w⟩
+
+/-- strictness: on the path 0 – 1 – 2 vertex 2 is within 2 hops of vertex 0 but not within 1 -/
+example : let A : BMat := fun i j => (i, j) ∈ [(0, 1), (1, 0), (1, 2), (2, 1)]
+    (nHopM 3 A 2).get 0 2 = true ∧ (nHopM 3 A 1).get 0 2 = false := by decide
+
+/-- **C13_nhop_selfloop_diag**: a vertex with its self loop in the adjacency (every element; every referenced node)
+has diagonal entry exactly `0` in the self-loop-free n-hop matrix for EVERY hop count `≥ 1` — also when it is an
+isolated single-element component — and off the diagonal the self-loop-free matrix is the 0/1 reachability. -/
+theorem C13_nhop_selfloop_diag (n : Nat) (A : BMat) (hops : Nat) (hh : 1 ≤ hops) (i : Nat) (hi : i < n)
+    (hA : A i i = true) :
+    nHopEntry (nHopM n A hops) false i i = 0 ∧
+    ∀ j, j ≠ i → nHopEntry (nHopM n A hops) false i j = if (nHopM n A hops).get i j then 1 else 0 := by
+  constructor
+  · have : (nHopM n A hops).get i i = true :=
+      (C13_nhop_reach n A hops hh i i hi hi).mpr ⟨1, le_refl _, hh, Walk.one hA⟩
+    simp [nHopEntry, this]
+  · intro j hj
+    have : i ≠ j := fun h => hj h.symm
+    simp [nHopEntry, this]
+
+example : nHopEntry (nHopM 3 (fun i j => i == j || (i, j) ∈ [(0, 1), (1, 0)]) 2) false 2 2 = 0 := by decide
+
+theorem walk_succ_inv {n : Nat} {A : BMat} {k i j : Nat} (hk : 1 ≤ k) (w : Walk n A (k + 1) i j) :
+    ∃ m, m < n ∧ Walk n A k i m ∧ A m j = true := by
+  cases w with
+  | one _ => omega
+  | snoc w' hm ha => exact ⟨_, hm, w', ha⟩
+
+/-- **C13_nhop_step**: the recursive formulation on the previous level is correct when the previous level is the
+full Boolean reachability (self loops as the adjacency has them): `R_{h+1} = R_h ∨ R_h · A`. -/
+theorem C13_nhop_step (n : Nat) (A : BMat) (h : Nat) (h1 : 1 ≤ h) (i j : Nat) (hi : i < n) (hj : j < n) :
+    (nHopM n A (h + 1)).get i j = ((nHopM n A h).get i j || mul n (nHopM n A h).get A i j) := by
+  apply Bool.eq_iff_iff.mpr
+  rw [C13_nhop_reach n A (h + 1) (by omega) i j hi hj, Bool.or_eq_true, mul_true]
+  constructor
+  · rintro ⟨k, k1, k2, w⟩
+    by_cases hk : k ≤ h
+    · exact Or.inl ((C13_nhop_reach n A h h1 i j hi hj).mpr ⟨k, k1, hk, w⟩)
+    · have hk' : k = h + 1 := by omega
+      subst hk'
+      obtain ⟨m, hm, w', ha⟩ := walk_succ_inv h1 w
+      exact Or.inr ⟨m, hm, (C13_nhop_reach n A h h1 i m hi hm).mpr ⟨h, h1, le_refl _, w'⟩, ha⟩
+  · rintro (hr | ⟨m, hm, hr, ha⟩)
+    · obtain ⟨k, k1, k2, w⟩ := (C13_nhop_reach n A h h1 i j hi hj).mp hr
+      exact ⟨k, k1, by omega, w⟩
+    · obtain ⟨k, k1, k2, w⟩ := (C13_nhop_reach n A h h1 i m hi hm).mp hr
+      exact ⟨k + 1, by omega, by omega, Walk.snoc w hm ha⟩
+
+/-- when every vertex has its self loop the `R_h ∨` may be dropped: `R_{h+1} = R_h · A` -/
+theorem C13_nhop_step_selfloops (n : Nat) (A : BMat) (hdiag : ∀ i, i < n → A i i = true) (h : Nat) (h1 : 1 ≤ h)
+    (i j : Nat) (hi : i < n) (hj : j < n) :
+    (nHopM n A (h + 1)).get i j = mul n (nHopM n A h).get A i j := by
+  rw [C13_nhop_step n A h h1 i j hi hj]
+  apply Bool.eq_iff_iff.mpr
+  rw [Bool.or_eq_true, mul_true]
+  constructor
+  · rintro (hr | hm)
+    · exact ⟨j, hj, hr, hdiag j hj⟩
+    · exact hm
+  · exact Or.inr
+
+example : let A : BMat := fun i j => i == j || (i, j) ∈ [(0, 1), (1, 0), (1, 2), (2, 1)]
+    (nHopM 3 A 2).get 0 2 = mul 3 (nHopM 3 A 1).get A 0 2 := by decide
+
+/-- …but NOT when the previous level is the SELF-LOOP-FREE result (seeded change C13-6: the recursion forwards
+`include_self_loop=False`): for an isolated single element (`n = 1`, `A = [[true]]`) extending the self-loop-free 1-hop
+matrix by one hop and subtracting the identity gives `−1` on the diagonal, where `C13_nhop_selfloop_diag` demands `0`. -/
+theorem C13_nhop_step_noloop_counterexample :
+    let A : BMat := fun _ _ => true
+    nHopEntry (nHopExtend 1 (nHopEntry (nHopM 1 A 1) false) A) false 0 0 = -1 ∧
+    nHopEntry (nHopM 1 A 2) false 0 0 = 0 := by decide
+
 /-! ### Laplacian -/
 
 /-- **C13_laplacian_rowsum**: every row of the graph Laplacian sums to zero. -/
@@ -289,5 +370,66 @@ example : e2vNonzeros 2 (fun _ _ => true) false = [(0, 1), (1, 0)] ∧ gradEdges
 a spurious column, because `adj − I` has a `−1` on its diagonal. -/
 theorem C13_e2v_isolated_vertex_column :
     e2vNonzeros 2 (fun i j => i == 0 && j == 0) false = [(1, 1)] := by decide
+
+/-! ### histories of queries on one live object -/
+
+theorem memoLookup_mem {κ' ν : Type} [DecidableEq κ'] (k : κ') (tbl : List (κ' × ν)) (v : ν)
+    (h : memoLookup k tbl = some v) : (k, v) ∈ tbl := by
+  induction tbl with
+  | nil => simp [memoLookup] at h
+  | cons a t ih =>
+    obtain ⟨k', v'⟩ := a
+    simp only [memoLookup] at h
+    by_cases hk : k' = k
+    · simp only [hk, if_true, Option.some.injEq] at h
+      subst hk; subst h; exact List.mem_cons_self
+    · simp only [hk, if_false] at h
+      exact List.mem_cons_of_mem _ (ih h)
+
+/-- the invariant the D-stream of the harness checks on the real code: every stored value is (still) the value of the
+pure function at a key with that projection -/
+def MemoSound {κ κ' ν : Type} (proj : κ → κ') (f : κ → ν) (tbl : List (κ' × ν)) : Prop :=
+  ∀ e ∈ tbl, ∀ k, proj k = e.1 → e.2 = f k
+
+/-- **C13_memo_history**: when the table is keyed on ALL of the key (`proj` injective: receiver and every option VALUE)
+and stored values are never modified, every answer of every history — any order, any repeats, any capacity, hits,
+misses and evictions alike — is the value of the pure function: the matrices of the model are the right expectation
+for every call of a sequence on one live object. -/
+theorem C13_memo_history {κ κ' ν : Type} [DecidableEq κ'] (proj : κ → κ') (hinj : Function.Injective proj)
+    (f : κ → ν) (cap : Nat) (tbl : List (κ' × ν)) (hs : MemoSound proj f tbl) (ks : List κ) :
+    memoRun proj f cap tbl ks = ks.map f := by
+  induction ks generalizing tbl with
+  | nil => rfl
+  | cons k ks ih =>
+    simp only [memoRun, List.map_cons]
+    cases hl : memoLookup (proj k) tbl with
+    | some v =>
+      have hv : v = f k := hs _ (memoLookup_mem _ _ _ hl) k rfl
+      simp only [memoQuery, hl]
+      rw [ih tbl hs, hv]
+    | none =>
+      simp only [memoQuery, hl]
+      rw [ih]
+      intro e he k' hk'
+      have he' := List.mem_of_mem_take he
+      rcases List.mem_cons.mp he' with h | h
+      · subst h
+        simp only at hk' ⊢
+        rw [hinj hk']
+      · exact hs e h k' hk'
+
+/-- from the empty table in particular -/
+theorem C13_memo_history_fresh {κ κ' ν : Type} [DecidableEq κ'] (proj : κ → κ') (hinj : Function.Injective proj)
+    (f : κ → ν) (cap : Nat) (ks : List κ) : memoRun proj f cap [] ks = ks.map f :=
+  C13_memo_history proj hinj f cap [] (by intro e he; cases he) ks
+
+example : memoRun (fun k : Nat × Bool => k) (fun k => if k.2 then k.1 + 1 else k.1) 1 []
+    [(2, true), (2, false), (2, true), (2, true)] = [3, 2, 3, 3] := by decide
+
+/-- a table keyed on part of the key only (the hop count but not `include_self_loop`; an option NAME but not its value)
+answers a later query with the value of an earlier different one: the hypothesis `Function.Injective proj` is needed -/
+theorem C13_memo_wrong_key_counterexample :
+    memoRun (fun k : Nat × Bool => k.1) (fun k => if k.2 then k.1 + 1 else k.1) 4 [] [(2, true), (2, false)] = [3, 3] ∧
+    [(2, true), (2, false)].map (fun k : Nat × Bool => if k.2 then k.1 + 1 else k.1) = [3, 2] := by decide
 
 end Femio.C13
